@@ -275,6 +275,8 @@ def run(repo, rep):
     _truth_rule(repo, rep, 'C20', 'C20.Z4')
     from ..api_pitfalls import attribute_rule as _attribute_rule
     _attribute_rule(repo, rep, 'C20', 'C20.Z5')
+    from ..api_pitfalls import pairing_rule as _pairing_rule
+    _pairing_rule(repo, rep, 'C20', 'C20.Z6')
     rep.rule('C20.H8', 'data sets and command sets are encoded into a buffer that is created in the call, or held per thread and emptied '
              'before the first write: the bytes of a message never contain what another thread or an earlier, failed encode wrote '
              '(same analysis as C08.M7)', 1)
